@@ -35,7 +35,7 @@ RULE = ("cases = (a) (api call, container, estimator), (b) (history of 2-8 opera
         "non-trivial = the call returned and the probe has a non-zero coefficient; distinct = digest(case)")
 SLACK = {"digests": "sha1 of bytes (exact)"}
 ASSUMPTIONS = ["sklearn _validate_data shim for regression estimators"]
-FLOOR = {"quick": 100, "thorough": 1500}
+FLOOR = {"quick": 100, "thorough": 1000}
 REPS = {"quick": 8, "thorough": 70}
 N_HIST = {"quick": 3, "thorough": 30}
 
